@@ -755,6 +755,12 @@ class Session:
 
     def execute(self, sql: str, args=None):
         """Returns (rowcount, rows|None, lastrowid).  rows are dicts in pymysql DictCursor shape."""
+        st, args = self._prepare(sql, args)
+        return self.run_top(st, args)
+
+    def _prepare(self, sql, args):
+        """-> (statement node, arguments) as run_top takes them (split out of execute so that vf.txmc can drive the same
+        statement step by step)."""
         st, nparams = self._parse(sql)
         if args is not None and not isinstance(args, (tuple, list, dict)):
             args = (args,)
@@ -765,15 +771,10 @@ class Session:
             lit = sql % tuple(escape_item(a) for a in args)
             st, nparams = self._parse(lit)
             args = None
-        return self.run_top(st, args)
+        return st, args
 
     def run_top(self, st, args):
-        self.result_sets = []
-        self.args = args
-        mark = len(self.undo)
-        implicit = not self.in_tx
-        self.last_rowcount = 0
-        self.stmt_lastrowid = None
+        implicit = self._top_begin(args)
         try:
             if self.db.txmodel is not None:  # txmodel hook: top-level statement
                 self.db.txmodel.run_stmt(self, st, None)
@@ -782,13 +783,28 @@ class Session:
         except (_Leave, _Return, _Iterate):
             raise SqlSyntaxError('LEAVE/RETURN outside routine')
         except Exception:
-            # each DML statement has already undone its own effects (statement-level atomicity, InnoDB);
-            # the transaction stays open
-            self.frames = []
-            if implicit and not self.in_tx:
-                self.undo = []
-                self._release()
+            self._top_abort(implicit)
             raise
+        return self._top_end(implicit)
+
+    # run_top in three parts (begin / abort / end) so that vf.txmc's step-by-step driver shares them
+    def _top_begin(self, args):
+        self.result_sets = []
+        self.args = args
+        implicit = not self.in_tx
+        self.last_rowcount = 0
+        self.stmt_lastrowid = None
+        return implicit
+
+    def _top_abort(self, implicit):
+        # each DML statement has already undone its own effects (statement-level atomicity, InnoDB);
+        # the transaction stays open
+        self.frames = []
+        if implicit and not self.in_tx:
+            self.undo = []
+            self._release()
+
+    def _top_end(self, implicit):
         if implicit and not self.in_tx:
             self.undo = []
             self._release()
@@ -827,6 +843,11 @@ class Session:
 
     def execute_bulk_insert(self, prefix, values_tmpl, postfix, args_list):
         """aiomysql executemany fast path: one multi-row INSERT statement."""
+        st2, flat = self._prepare_bulk(prefix, values_tmpl, postfix, args_list)
+        rc, _, lid = self.run_top(st2, flat)
+        return rc, lid
+
+    def _prepare_bulk(self, prefix, values_tmpl, postfix, args_list):
         n = values_tmpl.count('%s')
         key = ('bulk', prefix, values_tmpl, postfix)
         c = self.db.stmt_cache.get(key)
@@ -846,8 +867,7 @@ class Session:
             flat.extend(a)
             rows.append([self._shift_params(e, base) for e in rowt])
         st2 = ('insert', st[1], st[2], rows, None, st[5], st[6])
-        rc, _, lid = self.run_top(st2, tuple(flat))
-        return rc, lid
+        return st2, tuple(flat)
 
     def _shift_params(self, e, base):
         if isinstance(e, tuple):
@@ -1041,6 +1061,19 @@ class Session:
 
     # -- routines -----------------------------------------------------------------------------------
     def exec_call(self, st, scope):
+        r, f, outs = self._call_enter(st, scope)
+        self.frames.append(f)
+        try:
+            self.exec_stmt(r['body'], None)
+        except _Leave:
+            pass
+        finally:
+            self.frames.pop()
+        for pname, tgt in outs:
+            self._assign_target(tgt, f.vars[pname])
+
+    def _call_enter(self, st, scope):
+        """Argument binding of CALL: -> (routine, new frame, OUT bindings); shared with vf.txmc's step-by-step driver."""
         name, argexprs = st[1], st[2]
         r = self.db.routines.get(name)
         if r is None or r['kind'] != 'PROCEDURE':
@@ -1065,15 +1098,7 @@ class Session:
         self.cov(f'call:{name}')
         if len(self.frames) > 20:
             raise _err(1456, 'Recursive limit exceeded')
-        self.frames.append(f)
-        try:
-            self.exec_stmt(r['body'], None)
-        except _Leave:
-            pass
-        finally:
-            self.frames.pop()
-        for pname, tgt in outs:
-            self._assign_target(tgt, f.vars[pname])
+        return r, f, outs
 
     def call_function(self, name, args):
         r = self.db.routines.get(name)
